@@ -13,7 +13,7 @@
 (* plus the number of blocks still allocated after everything was destroyed *)
 (* and `hits`, how often the injected stream fault was actually reached.    *)
 (***************************************************************************)
-EXTENDS Naturals, Sequences, TLC
+EXTENDS Naturals, Sequences, SequencesExt, TLC
 
 Kinds == {"alloc", "failat", "throwat", "ofailat", "othrowat"}
 Archives == {"msgpack", "json", "xml", "csv"}
@@ -47,9 +47,14 @@ MustRejectBelow(arch, doc, unit, be) ==
 \* A: what the property allows for one run
 \*   n      = number of fault points of this kind in the fault-free run (allocations / input bytes / output bytes)
 \*   reject = MustRejectBelow for input faults
-OutcomeAllowed(kind, k, n, reject, outcome, leak, hits, probeOutcome) ==
+\*   ev / pev = what the load delivered to the caller (one item per public call: request results with the values, scopes
+\*   opened / closed) in this run / in the fault-free run
+OutcomeAllowed(kind, k, n, reject, outcome, leak, hits, probeOutcome, ev, pev) ==
   /\ outcome \in {"none", "exception"}            \* never terminate / hang / crash
   /\ leak = 0                                      \* nothing is leaked, everything stayed destructible
+  /\ IF outcome = "none" /\ probeOutcome = "none" /\ kind # "failat"
+     THEN ev = pev                                 \* a run that completes delivered exactly what the fault-free run delivers
+     ELSE kind = "failat" \/ IsPrefix(ev, pev)     \* what was delivered before the failure is what the fault-free run delivers
   /\ CASE kind = "alloc" -> IF Hits(k, n) THEN outcome = "exception" ELSE outcome = probeOutcome
        [] kind \in {"ofailat", "othrowat"} -> IF Hits(k, n) THEN outcome = "exception"          \* a failed write is an error
                                               ELSE outcome = probeOutcome
@@ -59,9 +64,11 @@ OutcomeAllowed(kind, k, n, reject, outcome, leak, hits, probeOutcome) ==
                              ELSE IF hits = 0 THEN outcome = probeOutcome                        \* the loader never got that far
                              ELSE TRUE                                                           \* a shorter, complete document
 
-Why(kind, k, n, reject, outcome, leak, hits, probeOutcome) ==
+Why(kind, k, n, reject, outcome, leak, hits, probeOutcome, ev, pev) ==
   IF outcome \notin {"none", "exception"} THEN outcome
   ELSE IF leak # 0 THEN "leak"
+  ELSE IF kind # "failat" /\ ~IsPrefix(ev, pev) THEN "the run delivered something the fault-free run does not deliver"
+  ELSE IF kind # "failat" /\ outcome = "none" /\ probeOutcome = "none" /\ ev # pev THEN "the run completed but delivered less than the fault-free run"
   ELSE IF outcome = "none" THEN "fault did not reach the caller as an exception"
   ELSE "unreached fault point changed the outcome"
 =============================================================================
